@@ -45,8 +45,13 @@ Fresh(i) == <<[p \in 1..MOf(i) |-> h.init], [p \in 1..MOf(i) |-> {}]>>
 (* what the real object showed after the call, against the specification state st *)
 ObsOK(r, st) ==
   /\ h.pub => (Len(r.obs) = Len(st[1]) /\ \A p \in PosOf(st) : r.obs[p] = st[1][p])
+  \* a stored identity is 0 for the placeholder, the index of an item, or -2 when it is the constructor's initial object
+  \* and that object is also item h.initx of the run (then it stands for the placeholder or for that item)
   /\ h.sig => (Len(r.sig) = Len(st[1]) /\ \A p \in PosOf(st) :
-                 IF st[2][p] = {} THEN r.sig[p] = 0 ELSE r.sig[p] \in st[2][p])
+                 LET v == r.sig[p]
+                     ix == IF Has(h, "initx") THEN h.initx ELSE 0
+                 IN IF st[2][p] = {} THEN v = 0 \/ (v = -2 /\ ix > 0)
+                    ELSE IF v = -2 THEN ix \in st[2][p] ELSE v \in st[2][p])
   /\ Has(r, "low") => (r.low >= 0 /\ r.low <= MinOf(st[1]))
 
 (* Function of the set: where several items attain the join value exactly (cand has more than one element - only    *)
